@@ -115,7 +115,47 @@ func c36Cases(ref JobResult) []chainCase {
 			}
 		}
 	}
-	// DAO transfers and burns
+	// DAO transfers and burns; ownership states: the genesis owner D, ownership handed to A2 by a parameter change,
+	// and the owner parameter cleared (then nobody may move DAO funds). The owner is read from the parameter store of
+	// the reference run.
+	type ownerState struct {
+		name string
+		pre  []BlockSpec
+	}
+	ownerStates := []ownerState{{"", nil},
+		{"owner-moved-to-A2", []BlockSpec{blk(tx("gov_param", "G", "from", "G", "key", "gov/daoOwner", "value", `"`+caddr("A2").String()+`"`))}},
+		{"owner-cleared", []BlockSpec{blk(tx("gov_param", "G", "from", "G", "key", "gov/daoOwner", "value", `""`))}}}
+	for _, os := range ownerStates[1:] {
+		for _, action := range []string{"dao_transfer", "dao_burn"} {
+			for _, signer := range []string{"D", "G", "A2"} {
+				os, action, signer := os, action, signer
+				t := tx("gov_dao", signer, "from", signer, "action", action, "to", "A1", "amount", "7")
+				cases = append(cases, chainCase{Name: fmt.Sprintf("dao/%s/%s/by-%s", os.name, action, signer), Class: action + "-" + os.name, Env: env, Want: []string{"balances", "supply"},
+					Ref: append(append([]BlockSpec{}, os.pre...), BlockSpec{}), Subject: append(append([]BlockSpec{}, os.pre...), blk(t)),
+					Oracle: func(r, s JobResult) (string, string) {
+						bd := balanceDelta(r, s)
+						stored := strings.Trim(obsStrMap(r, "params")["gov/daoOwner"], `"`)
+						isOwner := stored != "" && strings.EqualFold(stored, caddr(signer).String())
+						fee := requiredFee(t)
+						want := map[string]int64{signer: -fee, "module:fee_collector": fee}
+						if isOwner {
+							want["module:dao"] = -7
+							if action == "dao_transfer" {
+								want["A1"] = 7
+							}
+						}
+						desc := fmt.Sprintf("%s of 7 signed by %s after %s (stored DAO owner %q, signer is the owner: %v): result code %d, balance changes %s, expected %s", action, signer, os.name, stored, isOwner, lastTx(s).Code, deltaStr(bd), deltaStr(want))
+						if !deltaEq(bd, want) {
+							if !isOwner && bd["module:dao"] != 0 {
+								return "dao-funds-moved-by-non-owner", desc
+							}
+							return "dao-balances", desc
+						}
+						return "", ""
+					}})
+			}
+		}
+	}
 	for _, action := range []string{"dao_transfer", "dao_burn"} {
 		for _, amt := range []string{"1", "B-1", "B", "B+1", "-5"} {
 			for _, signer := range []string{"D", "G", "A2"} {
